@@ -18,6 +18,25 @@ def bindHandler : List String → Option String
     match parseWidth w, parseTermAll [t] with
     | some w, some (.int i) => some (showAssign (assignIdeal w i) ++ " / " ++ showAssign (assignCode true w i))
     | _, _ => some "bad-args"
+  | "bind.history" :: calls =>
+    -- bind.history (e<go>:<schema> | i<go>)*  →  one answer per call under the code's treatment of inference (memo)
+    let parse (t : String) : Option Call :=
+      match t.toList with
+      | 'i' :: r => (String.ofList r).toNat?.map Call.inferred
+      | 'e' :: r =>
+        match (String.ofList r).splitOn ":" with
+        | [a, b] => match a.toNat?, b.toNat? with
+          | some g, some s => some (Call.explicit g s)
+          | _, _ => none
+        | _ => none
+      | _ => none
+    match calls.mapM parse with
+    | none => some "bad-args"
+    | some cs =>
+      let show1 : CallOut → String
+        | .ok g s => "ok:" ++ toString g ++ ":" ++ toString s
+        | .panic => "panic"
+      some (" ".intercalate ((bindRun .memo [] cs).map show1))
   | _ => none
 
 end Ipld.Driver
